@@ -173,6 +173,8 @@ def reject_menu():
             M.append(("%s %s table %s" % (kind, z, lab), kind, dict(fixed, **{z: t}), True))
         for lab, t in good:
             M.append(("%s %s table %s" % (kind, z, lab), kind, dict(fixed, **{z: t}), False))
+        M.append(("%s %s table empty-dict" % (kind, z), kind, dict(fixed, **{z: {}}), True))
+        M.append(("%s %s table empty-axes" % (kind, z), kind, dict(fixed, **{z: {"vi": [], "io": [], z: []}}), True))
         if z == "ig":
             M.append(("%s negative tabulated ig" % kind, kind, dict(fixed, ig=T1("ig", [1e-3, -1e-3, 2e-3])), True))
             M.append(("%s negative tabulated ig 2d" % kind, kind, dict(fixed, ig=T2("ig", [[1e-3, 1e-3, 2e-3], [1e-3, -1e-9, 2e-3]])), True))
